@@ -36,10 +36,19 @@ def r_perm(ctx: RuleCtx, col: Collector):
     if not rets:
         raise AnalysisError("EigenSolve._response does not return (values, vectors)")
     wname, qname = [norm(x) for x in rets[-1].value.elts]
-    perm_w = [n for n in ast.walk(resp.node) if isinstance(n, ast.Assign) and norm(n.targets[0]) == wname and
-              isinstance(n.value, ast.Subscript) and norm(n.value.value) == wname]
-    perm_q = [n for n in ast.walk(resp.node) if isinstance(n, ast.Assign) and norm(n.targets[0]) == qname and
-              isinstance(n.value, ast.Subscript) and norm(n.value.value) == qname]
+    class _P:      # (target, value) pair of a plain or tuple assignment, keeping the statement for positions
+        def __init__(self, st, t, v):
+            self.st, self.targets, self.value, self.lineno = st, [t], v, st.lineno
+    pairs = []
+    for n in ast.walk(resp.node):
+        if isinstance(n, ast.Assign):
+            t = n.targets[0]
+            if isinstance(t, ast.Tuple) and isinstance(n.value, ast.Tuple) and len(t.elts) == len(n.value.elts):
+                pairs += [_P(n, a, b) for a, b in zip(t.elts, n.value.elts)]
+            else:
+                pairs.append(_P(n, t, n.value))
+    perm_w = [x for x in pairs if norm(x.targets[0]) == wname and isinstance(x.value, ast.Subscript) and norm(x.value.value) == wname]
+    perm_q = [x for x in pairs if norm(x.targets[0]) == qname and isinstance(x.value, ast.Subscript) and norm(x.value.value) == qname]
     if not perm_w or not perm_q:
         col.bad(where_of(resp), resp.rel, line_of(resp.node), "EigenSolve: values and vectors sorted",
                 "the sorting permutation is not applied to both the eigenvalues and the eigenvectors")
@@ -48,9 +57,9 @@ def r_perm(ctx: RuleCtx, col: Collector):
     sq = perm_q[0].value.slice
     okq = isinstance(sq, ast.Tuple) and len(sq.elts) == 2 and isinstance(sq.elts[0], ast.Slice) and \
         sq.elts[0].lower is None and sq.elts[0].upper is None and norm(sq.elts[1]) == iw
-    col.ok(where_of(resp), resp.rel, line_of(perm_w[0]), f"eigenvalues permuted by '{iw}'", stmt_key(perm_w[0]))
+    col.ok(where_of(resp), resp.rel, line_of(perm_w[0]), f"eigenvalues permuted by '{iw}'", stmt_key(perm_w[0].st))
     if okq:
-        col.ok(where_of(resp), resp.rel, line_of(perm_q[0]), f"eigenvector columns permuted by '{iw}'", stmt_key(perm_q[0]))
+        col.ok(where_of(resp), resp.rel, line_of(perm_q[0]), f"eigenvector columns permuted by '{iw}'", stmt_key(perm_q[0].st))
     else:
         col.bad(where_of(resp), resp.rel, line_of(perm_q[0]), f"eigenvector columns permuted by '{iw}'",
                 f"eigenvalues are reordered with '{iw}' but the eigenvectors with '{U(sq)}' (expected [:, {iw}]): "
